@@ -263,6 +263,7 @@ class AminoAcidSeqRecord(SeqRecord):
 
     def get_enzymatic_cleave_exception_sites(self, exception:str) -> Iterable[int]:
         """ Find all enzymatic cleavage exception sites """
+        exception = EXPASY_RULES.get(exception, exception)
         return [] if exception is None else \
             [x.end() for x in re.finditer(exception, str(self.seq))]
 
